@@ -27,7 +27,9 @@ MDeleteFolder(fo)  == Step /\ \E o \in DeleteFolderNext(fo) : DeleteFolder(fo, o
 MRestoreFile(fo, fi)  == Step /\ \E o \in RestoreFileNext(fo, fi) : RestoreFile(fo, fi, o.ok, o.fo, o.fi)
 MRestoreFolder(fo)  == Step /\ \E o \in RestoreFolderNext(fo) : RestoreFolder(fo, o.ok, o.fo, o.fi)
 MPreTick  == Step /\ PreTick(folders, files, 0, 0)
-MTick  == Step /\ \E o \in TickNext : Tick(o.fo, o.fi)
+\* (design: a tick that leaves the node not ON moves nothing - Node.apply_timestep; the trace specification does not demand it, C12 does)
+MTick  == Step /\ \E o \in TickNext, b \in {on, TRUE} : (~b => o.fi = files) /\ Tick(o.fo, o.fi, b)
+MPower == Step /\ Power(folders, files, FALSE)   \* (shut-down, or a start-up that has not completed yet)
 
 Ops ==
     \/ \E fo \in AllFolders, fi \in FileNames : MCreateFile(fo, fi)
@@ -38,6 +40,7 @@ Ops ==
     \/ \E fo \in AllFolders : MRestoreFolder(fo)
     \/ MPreTick
     \/ MTick
+    \/ MPower
 Next == Ops
 
 Spec == Init /\ [][Next]_mvars
@@ -46,4 +49,6 @@ Spec == Init /\ [][Next]_mvars
 PAppendOnly == [][AppendOnly(folders', files')]_mvars
 \* a deleted item only comes back through a restore, a live one only goes through a delete
 RootStays == ~folders[1].del
+\* while the node is not ON the structure does not move
+PFrozenWhenOff == [][(~on /\ ~on') => (folders' = folders /\ files' = files)]_mvars
 =============================================================================
